@@ -873,42 +873,55 @@ Definition ok_resolve (gs : list gt_session) (tl : list (Z * list (Z * nat))) (t
   end.
 
 (* ------------------------------------------------------------------ record side: the dlopen() wrapper *)
-(* libmcount/wrap.c dlopen(): what one traced thread does, as a tree.  [ARec a] is a traced call
-   or return at address a (mcount_entry/mcount_exit read the clock and write a record);
-   [ADlopen base tab ctor] is a call of the wrapper: real_dlopen() maps the library at [base] and
-   runs its static initialisers [ctor] (ELF constructors, C++ global constructors - they may record
-   and may call dlopen again) before it returns; afterwards the wrapper sends the DLOP message
-   (time stamp, base, name) that ends up in task.txt.
-   [early = true] is the code as it is: the clock is read on entry of the wrapper, BEFORE
-   real_dlopen().  [early = false] reads it where the message is built, after real_dlopen().
+(* libmcount/wrap.c dlopen() + dlopen_base_callback(): what one traced thread does, as a tree.
+   [ARec a] is a traced call or return at address a (mcount_entry/mcount_exit read the clock and
+   write a record).  [ADlopen base tab deps ctor] is a call of the wrapper: real_dlopen() maps the
+   library at [base] together with its not yet mapped DT_NEEDED dependencies [deps] and runs their
+   static initialisers [ctor] (ELF constructors, C++ global constructors - they record and may call
+   dlopen again) before it returns; afterwards the wrapper sends the DLOP messages (time stamp,
+   base, name) that end up in task.txt.
+   [early = true]: the clock is read on entry of the wrapper, BEFORE real_dlopen() (the code;
+   generated flag wrap_dlopen_clock_first).  [early = false] reads it after real_dlopen().
+   [fixed = true] is the code since fix 0c4417a: every library the call mapped is reported
+   (generated flag wrap_dlopen_reports_all: no name filter in the callback) and all of them carry
+   the entry time of the OUTERMOST dlopen in progress in the thread ([outer]).  [fixed = false] is
+   the code as found: only the library named in the call is reported, with the call's own time.
+   (The fixed code sends the message of a still-loading outer library from the inner call; the
+   set of messages and their time stamps are the same as here, only their order differs.)
    Every clock read returns a later value than the previous one of the thread. *)
 Inductive act :=
 | ARec (a : Z)
-| ADlopen (base : Z) (tab : symtab) (ctor : list act).
+| ADlopen (base : Z) (tab : symtab) (deps : list (Z * symtab)) (ctor : list act).
 
 Definition rout := (Z * list (Z * Z) * list dlib)%type.      (* clock, records (time, addr), DLOP messages *)
 
-Fixpoint run_act (early : bool) (x : act) (clk : Z) : rout :=
+Definition dl_stamp (fixed : bool) (outer : option Z) (entry : Z) : Z :=
+  if fixed then match outer with Some t0 => t0 | None => entry end else entry.
+Definition dl_msgs (fixed : bool) (stamp base : Z) (tab : symtab) (deps : list (Z * symtab)) : list dlib :=
+  mkDl stamp base tab :: (if fixed then map (fun d => mkDl stamp (fst d) (snd d)) deps else []).
+
+Fixpoint run_act (early fixed : bool) (outer : option Z) (x : act) (clk : Z) : rout :=
   match x with
   | ARec a => (clk + 1, [(clk, a)], [])
-  | ADlopen base tab ctor =>
+  | ADlopen base tab deps ctor =>
+      let stamp := dl_stamp fixed outer clk in
       let run_l :=
         (fix go (l : list act) (c : Z) : rout :=
            match l with
            | [] => (c, [], [])
-           | y :: r => let '(c1, r1, d1) := run_act early y c in
+           | y :: r => let '(c1, r1, d1) := run_act early fixed (Some stamp) y c in
                        let '(c2, r2, d2) := go r c1 in (c2, r1 ++ r2, d1 ++ d2)
            end) in
       if early
-      then let '(c2, rs, ds) := run_l ctor (clk + 1) in (c2, rs, ds ++ [mkDl clk base tab])
-      else let '(c2, rs, ds) := run_l ctor clk in (c2 + 1, rs, ds ++ [mkDl c2 base tab])
+      then let '(c2, rs, ds) := run_l ctor (clk + 1) in (c2, rs, ds ++ dl_msgs fixed stamp base tab deps)
+      else let '(c2, rs, ds) := run_l ctor clk in (c2 + 1, rs, ds ++ dl_msgs fixed c2 base tab deps)
   end.
 
-Fixpoint run_acts (early : bool) (l : list act) (c : Z) : rout :=
+Fixpoint run_acts (early fixed : bool) (outer : option Z) (l : list act) (c : Z) : rout :=
   match l with
   | [] => (c, [], [])
-  | y :: r => let '(c1, r1, d1) := run_act early y c in
-              let '(c2, r2, d2) := run_acts early r c1 in (c2, r1 ++ r2, d1 ++ d2)
+  | y :: r => let '(c1, r1, d1) := run_act early fixed outer y c in
+              let '(c2, r2, d2) := run_acts early fixed outer r c1 in (c2, r1 ++ r2, d1 ++ d2)
   end.
 
 (* the analysis side receives the DLOP messages in the order they were sent *)
@@ -991,3 +1004,157 @@ Definition ok_plt_entry (vaddr0 : Z) (truth : list (str * Z)) (s : sym) : bool :
 Definition ok_plt_table (vaddr0 : Z) (truth : list (str * Z)) (tab : symtab) : bool :=
   forallb (ok_plt_entry vaddr0 truth) tab &&
   forallb (fun p => existsb (fun s => (s_type s =? K_ST_PLT_FUNC) && str_eqb (s_name s) (fst p)) tab) truth.
+
+(* ------------------------------------------------------------------ module of an address *)
+(* what replay -f +module shows for a record: the map of the session in force that holds the
+   address (find_task_session + find_map); "K" stands for the kernel pseudo map *)
+Definition resolve_map (lk : link) (tid time a : Z) : option str :=
+  match find_task (tasks lk) tid with
+  | None => None
+  | Some t =>
+      match find_task_session lk t time with
+      | None => None
+      | Some s => match find_map (se_info s) a with
+                  | MapAt m => Some (m_name m)
+                  | MapKernel => Some [75]
+                  | MapNone => None
+                  end
+      end
+  end.
+
+Fixpoint gt_modname (ms : list (Z * Z * str)) (a : Z) : option str :=
+  match ms with
+  | [] => None
+  | (s, e, n) :: r => if (s <=? a) && (a <? e) then Some n else gt_modname r a
+  end.
+Definition ok_module (gm : list (list (Z * Z * str))) (tl : list (Z * list (Z * nat))) (tid t a : Z) (ans : option str) : bool :=
+  match assoc_tl tl tid with
+  | None => true
+  | Some l =>
+      match in_force l t None with
+      | None => true
+      | Some i =>
+          match nth_error gm i with
+          | None => true
+          | Some ms =>
+              match ans with
+              | Some (75 :: nil) => true                      (* kernel address: no verdict *)
+              | _ => match gt_modname ms a, ans with
+                     | Some n, Some m => str_eqb n m
+                     | None, None => true
+                     | _, _ => false
+                     end
+              end
+          end
+      end
+  end.
+
+(* ------------------------------------------------------------------ the symbol table of an ELF file *)
+(* utils/symbol.c load_symtab (load_symbol, sort_symtab), load_dynsymtab (PLT part above +
+   arch/x86_64 arch_load_dynsymtab_noplt), merge_symtabs, update_symtab_using_dynsym: the table
+   load_module_symtab builds when there is no .sym file - what record writes into <module>.sym. *)
+Record esym := mkESym { e_value : Z; e_size : Z; e_type : Z; e_bind : Z; e_shndx : Z; e_name : str }.
+Definition STT_OBJECT : Z := 1.
+Definition STT_FUNC : Z := 2.
+Definition STT_GNU_IFUNC : Z := 10.
+
+Definition esym_typed (e : esym) : bool :=
+  (e_type e =? STT_FUNC) || (e_type e =? STT_GNU_IFUNC) || (e_type e =? STT_OBJECT).
+Definition loadable (e : esym) : bool :=
+  negb (e_shndx e =? 0) && negb (e_size e =? 0) && esym_typed e.
+
+(* enum uftrace_symtype from binding and type *)
+Definition symtype_of (e : esym) : Z :=
+  let obj := e_type e =? STT_OBJECT in
+  if e_bind e =? 0 then (if obj then 100 else 116)            (* STB_LOCAL: 'd' / 't' *)
+  else if e_bind e =? 1 then (if obj then 68 else 84)          (* STB_GLOBAL: 'D' / 'T' *)
+  else if e_bind e =? 2 then (if obj then 118 else 119)        (* STB_WEAK: 'v' / 'w' *)
+  else if (e_bind e =? 10) && obj then 117                     (* STB_GNU_UNIQUE object: 'u' *)
+  else 63.                                                     (* '?' *)
+
+(* load_symbol over the symbols in file order; prev = st_value of the last symbol that was loaded *)
+Fixpoint load_symbols (offset prev : Z) (l : list esym) : symtab :=
+  match l with
+  | [] => []
+  | e :: r =>
+      if loadable e && negb (prev =? e_value e)
+      then mkSym ((e_value e + offset) mod W64) (e_size e mod W32) (symtype_of e) (e_name e)
+           :: load_symbols offset (e_value e) r
+      else load_symbols offset prev r
+  end.
+
+(* sort_symtab: symbols of one address become one entry - the data of the last one, the name
+   preferring one that does not start with '_' (unless mangled "_Z") *)
+Definition better_name (best nm : str) : str :=
+  if (nth 0 best 0 =? 95) && negb (nth 1 best 0 =? 90) && negb (nth 0 nm 0 =? 95) then nm else best.
+Definition finish_run (best : str) (last : sym) : sym := mkSym (s_addr last) (s_size last) (s_type last) best.
+Fixpoint dedup_go (cur : Z) (best : str) (last : sym) (l : symtab) : symtab :=
+  match l with
+  | [] => [finish_run best last]
+  | y :: r => if s_addr y =? cur then dedup_go cur (better_name best (s_name y)) y r
+              else finish_run best last :: dedup_go (s_addr y) (s_name y) y r
+  end.
+Definition dedup_syms (l : symtab) : symtab :=
+  match l with [] => [] | x :: r => dedup_go (s_addr x) (s_name x) x r end.
+
+Definition elf_offset (adj : bool) (offset0 vaddr0 : Z) : Z := if adj then (offset0 - vaddr0) mod W64 else offset0.
+
+Definition load_symtab (adj : bool) (offset0 vaddr0 : Z) (syms : list esym) : symtab :=
+  dedup_syms (sort_syms (load_symbols (elf_offset adj offset0 vaddr0) (-1) syms)).
+
+(* merge_symtabs: the table whose first address is smaller goes first, then qsort by address *)
+Definition merge_symtabs (left right : symtab) : symtab :=
+  match left, right with
+  | _, [] => left
+  | [], _ => right
+  | l0 :: _, r0 :: _ => sort_syms (if s_addr l0 <? s_addr r0 then left ++ right else right ++ left)
+  end.
+
+(* arch_load_dynsymtab_noplt: one pseudo symbol per R_X86_64_GLOB_DAT relocation of an undefined
+   function: (index of the relocation in .rela.dyn, name) *)
+Definition noplt_syms (offset reladyn : Z) (gd : list (Z * str)) : symtab :=
+  sort_syms (map (fun p => mkSym ((reladyn + offset) mod W64 + fst p * 24) 24 K_ST_PLT_FUNC (snd p)) gd).
+
+(* update_symtab_using_dynsym: a defined dynamic symbol renames the entry that holds its address *)
+Fixpoint set_name (tab : symtab) (i : nat) (nm : str) : symtab :=
+  match tab, i with
+  | [], _ => []
+  | s :: r, O => mkSym (s_addr s) (s_size s) (s_type s) nm :: r
+  | s :: r, S k => s :: set_name r k nm
+  end.
+Definition update_one (offset : Z) (tab : symtab) (e : esym) : symtab :=
+  if (e_shndx e =? 0) || negb (esym_typed e) then tab
+  else match bsearch (cmp_addr ((e_value e + offset) mod W64)) tab with
+       | None => tab
+       | Some i =>
+           match nth_error tab i with
+           | None => tab
+           | Some s =>
+               if (negb (nth 0 (s_name s) 0 =? 95) && (nth 0 (e_name e) 0 =? 95)) || (nth 1 (s_name s) 0 =? 90)
+               then tab else set_name tab i (e_name e)
+           end
+       end.
+
+Record elffile := mkElf {
+  ef_vaddr0 : Z; ef_symtab : list esym; ef_dynsym : list esym; ef_plt : elfplt;
+  ef_reladyn : Z; ef_globdat : list (Z * str)
+}.
+(* load_module_symbol without a symbol file, SYMTAB_FL_ADJ_OFFSET, caller's offset 0 *)
+Definition module_table (f : elffile) : symtab :=
+  let offset := elf_offset true 0 (ef_vaddr0 f) in
+  let st := load_symtab true 0 (ef_vaddr0 f) (ef_symtab f) in
+  let dyn := merge_symtabs (load_elf_dynsymtab true 0 (ef_plt f)) (noplt_syms offset (ef_reladyn f) (ef_globdat f)) in
+  fold_left (update_one offset) (ef_dynsym f) (merge_symtabs st dyn).
+
+Fixpoint strictly_sorted (tab : symtab) : bool :=
+  match tab with
+  | a :: ((b :: _) as r) => (s_addr a <? s_addr b) && strictly_sorted r
+  | _ => true
+  end.
+
+(* run-time checker for a module table built by the implementation: every loadable symbol of the
+   file is represented at (st_value - first PT_LOAD address), no address occurs twice among the
+   non-PLT entries *)
+Definition ok_module_table (f : elffile) (tab : symtab) : bool :=
+  forallb (fun e => if loadable e then existsb (fun s => s_addr s =? e_value e - ef_vaddr0 f) tab else true) (ef_symtab f)
+  && strictly_sorted (filter (fun s => negb (s_type s =? K_ST_PLT_FUNC)) tab).
